@@ -150,6 +150,17 @@ def CostAlg.equiv (A : CostAlg α) (a b : α) : Bool := !A.better a b && !A.bett
 /-- `betterCost` -/
 def CostAlg.betterCost (A : CostAlg α) (a b : α) : α := if A.better a b then a else b
 
+/-- the default `OptimizationObjective` algebra over given operations. -/
+def mkAdditive (zero : α) (add : α → α → α) (lt : α → α → Bool) : CostAlg α := ⟨zero, add, lt⟩
+
+/-- `MinimaxObjective::combineCosts(c1,c2) = isCostBetterThan(c1,c2) ? c2 : c1` (the worse one). -/
+def mkMinimax (ident : α) (better : α → α → Bool) : CostAlg α :=
+  ⟨ident, fun a b => if better a b then b else a, better⟩
+
+/-- `MinimizeArrivalTime::combineCosts(c1,c2) = c1 > c2 ? c1 : c2`. -/
+def mkArrival (ident : α) (lt : α → α → Bool) : CostAlg α :=
+  ⟨ident, fun a b => if lt b a then a else b, lt⟩
+
 section PathCost
 variable {σ : Type}
 
@@ -239,19 +250,16 @@ def field (k : Nat) (s : Pt α) : α :=
     Num.half + (if Num.lt y Num.zero then Num.zero - y else y)
 
 /-- default algebra: `identity 0`, `combine +`, `better <`. -/
-def algAdditive : CostAlg α := ⟨Num.zero, (· + ·), Num.lt⟩
+def algAdditive : CostAlg α := mkAdditive Num.zero (· + ·) Num.lt
 
 /-- `MinimaxObjective`: `combineCosts(c1,c2) = isCostBetterThan(c1,c2) ? c2 : c1`. -/
-def algMinimax : CostAlg α :=
-  ⟨Num.zero, fun a b => if Num.lt a b then b else a, Num.lt⟩
+def algMinimax : CostAlg α := mkMinimax Num.zero Num.lt
 
 /-- `MaximizeMinClearanceObjective`: better is `>`, identity `+inf`, Minimax's combine. -/
-def algClearance : CostAlg α :=
-  ⟨Num.inf, fun a b => if Num.lt b a then b else a, fun a b => Num.lt b a⟩
+def algClearance : CostAlg α := mkMinimax Num.inf (fun a b => Num.lt b a)
 
 /-- `MinimizeArrivalTime`: `combineCosts(c1,c2) = c1 > c2 ? c1 : c2`, identity `-inf`. -/
-def algArrival : CostAlg α :=
-  ⟨Num.negInf, fun a b => if Num.lt b a then a else b, Num.lt⟩
+def algArrival : CostAlg α := mkArrival Num.negInf Num.lt
 
 /-- `StateCostIntegralObjective::trapezoid`: `0.5 * dist * (c1 + c2)`. -/
 def trapezoid (c1 c2 d : α) : α := Num.half * d * (c1 + c2)
